@@ -109,6 +109,17 @@ def check_meanvar(ctx, case):
   if dtype is not float:
     ctx.count('stats_int_dtype_cases')
   cls = {'mean': rs.Mean, 'meanvar': rs.MeanAndVariance, 'var': rs.Var}[sub]
+  score = (case.get('config') or {}).get('score')
+  raw = batches  # what the library is handed
+  if score:
+    # Non-default configuration: batch_score_fn (element-wise, exact in floats).
+    # The definition: the statistics of the scored values.
+    ctx.count('stats_configured_mean_cases')
+    score_np = {'abs': np.abs, 'neg': np.negative, 'half': _half}[score]
+    score_py = {'abs': abs, 'neg': lambda v: -v, 'half': lambda v: v * 0.5}[score]
+    batches = [_map_values(score_py, b) for b in raw]
+    base_cls = cls
+    cls = lambda: base_cls(batch_score_fn=score_np)
   scale = _scale(batches)
   spread = _spread(batches)
   mis = cm.Mis()
@@ -153,10 +164,10 @@ def check_meanvar(ctx, case):
   arr = lambda b: np.asarray(b, dtype=dtype)
   try:
     with cm.observed_warnings(ctx, 'stats'):
-      compare(fields(cls()(arr(first))), want_first, '__call__')
-      compare(fields(cls().as_agg_fn()(arr(first))), want_first, 'agg_fn')
+      compare(fields(cls()(arr(raw[0]))), want_first, '__call__')
+      compare(fields(cls().as_agg_fn()(arr(raw[0]))), want_first, 'agg_fn')
       m = cls()
-      for b in batches:
+      for b in raw:
         m.add(arr(b))
       mech = None
       if sub != 'mean' and len(batches) > 1 and _all_nan_column_in_some_batch(batches):
@@ -179,6 +190,15 @@ def check_meanvar(ctx, case):
     mis.add('raised', None, {'error': repr(e)[:300]})
   if not mis.flush(ctx, case) and len(ctx.samples) < 2:
     ctx.sample({'family': 'stats', 'sub': sub, 'input': case['input']})
+
+
+def _half(batch):
+  import numpy as np
+  return np.asarray(batch) * 0.5
+
+
+def _map_values(f, batch):
+  return [[f(v) for v in r] if isinstance(r, (list, tuple)) else f(r) for r in batch]
 
 
 KEY_INF_DROPPED = 'mean-variance-drops-batch-containing-inf'
@@ -445,3 +465,165 @@ def check_calibration(ctx, case):
     mis.add('raised', None, {'error': repr(e)[:300]})
   if not mis.flush(ctx, case) and len(ctx.samples) < 4:
     ctx.sample({'family': 'stats', 'sub': 'calib', 'config': config, 'input': inp})
+
+
+# ---------------------------------------------------------------------------
+# ValueAccumulator with a non-default configuration (fourth audit round)
+# ---------------------------------------------------------------------------
+
+VALUEACC_ONE_SHOT = 'value-accumulator-one-shot-call-drops-configuration'
+
+
+def _list_concat(a, b):
+  return list(a) + list(b)
+
+
+def _array_concat(a, b):
+  import numpy as np
+  return np.concatenate([a, b])
+
+
+def _m_sum(xs):
+  return sum(int(v) for v in xs)
+
+
+def _m_len(xs):
+  return len(xs)
+
+
+def _m_max(xs):
+  return max(int(v) for v in xs)
+
+
+def _m_mean(xs):
+  return sum(int(v) for v in xs) / len(xs)
+
+
+def _m_dot(xs, ys):
+  return sum(int(a) * int(b) for a, b in zip(xs, ys, strict=True))
+
+
+def _m_len2(xs, ys):
+  return len(xs) + len(ys)
+
+
+def _m_sumdiff(xs, ys):
+  return sum(int(v) for v in xs) - sum(int(v) for v in ys)
+
+
+def _m_nbatches(bs, *more):
+  return len(bs)
+
+
+def _m_total(*groups):
+  return sum(int(v) for bs in groups for b in bs for v in b)
+
+
+def _m_maxlen(bs):
+  return max(len(b) for b in bs)
+
+
+VALUEACC_FNS = {
+    'sum': _m_sum, 'len': _m_len, 'max': _m_max, 'mean': _m_mean, 'dot': _m_dot,
+    'len2': _m_len2, 'sumdiff': _m_sumdiff, 'nbatches': _m_nbatches,
+    'nbatches2': _m_nbatches, 'total': _m_total, 'total2': _m_total,
+    'maxlen': _m_maxlen,
+}
+
+
+def _plain(x):
+  """Library value -> plain python (tuples and arrays become lists)."""
+  import numpy as np
+  if isinstance(x, dict):
+    return {str(k): _plain(v) for k, v in x.items()}
+  if isinstance(x, np.ndarray):
+    return _plain(x.tolist())
+  if isinstance(x, (list, tuple)):
+    return [_plain(v) for v in x]
+  if isinstance(x, np.generic):
+    return x.item()
+  return x
+
+
+def valueacc_definition(config, batches):
+  """Plain-python definition: the i-th input of every add() is kept, in order -
+  joined into one sequence (concat_fn) or as a list of the batches (no
+  concat_fn); the result is metric_fns applied to these sequences (a dict of
+  callables gives a dict of values), or the sequences themselves when there is
+  no metric (a single input is not wrapped in a tuple)."""
+  nargs = config['nargs']
+  if config['concat']:
+    data = [[v for b in batches for v in b[i]] for i in range(nargs)]
+  else:
+    data = [[list(b[i]) for b in batches] for i in range(nargs)]
+  metric = config['metric']
+  if metric is None:
+    return data if nargs > 1 else data[0]
+  if isinstance(metric, list):
+    return {name: VALUEACC_FNS[name](*data) for name in metric}
+  return VALUEACC_FNS[metric](*data)
+
+
+def check_valueacc(ctx, case):
+  """config {'concat': None|'list'|'array', 'metric': None|name|[names],
+  'nargs': 1|2}; input {'batches': [[values of input 0, (values of input 1)]]}
+  (small ints: every metric is exact). The one-shot call, add() + result(),
+  as_agg_fn()(batch) and a merge of per-batch accumulators must all return the
+  plain-python definition."""
+  import numpy as np
+  from ml_metrics._src.aggregates import rolling_stats as rs
+
+  config, batches = case['config'], case['input']['batches']
+  concat, metric = config['concat'], config['metric']
+  concat_fn = {None: None, 'list': _list_concat, 'array': _array_concat}[concat]
+  if metric is None:
+    metric_fns = None
+  elif isinstance(metric, list):
+    metric_fns = {name: VALUEACC_FNS[name] for name in metric}
+  else:
+    metric_fns = VALUEACC_FNS[metric]
+  wrap = (lambda v: np.asarray(v, dtype=np.int64)) if concat == 'array' else list
+  make = lambda: rs.ValueAccumulator(concat_fn, metric_fns)
+  args = lambda b: [wrap(v) for v in b]
+  want_first = valueacc_definition(config, batches[:1])
+  want_all = valueacc_definition(config, batches)
+  mis = cm.Mis()
+  ctx.case(('stats', 'valueacc', config, case['input']), len(batches) >= 2)
+  ctx.count('stats_valueacc_cases')
+  if metric is not None:
+    ctx.count('stats_valueacc_metric_fns_cases')
+
+  def compare(got, want, path):
+    ctx.count('stats_value_checks')
+    if _plain(got) != want:
+      # keyed by the configuration and the API path, not by the value returned:
+      # the one-shot call of an accumulator that was given metric_fns
+      mech = VALUEACC_ONE_SHOT if path == '__call__' and metric is not None else None
+      mis.add('api_paths_differ' if path == '__call__' else 'value_mismatch', mech,
+              {'path': path, 'got': _plain(got), 'want': want})
+
+  try:
+    ctx.count('stats_one_shot_call_checks')
+    compare(make()(*args(batches[0])), want_first, '__call__')
+    compare(make().as_agg_fn()(*args(batches[0])), want_first, 'agg_fn')
+    m = make()
+    m.add(*args(batches[0]))
+    compare(m.result(), want_first, 'add_result[first batch]')
+    for b in batches[1:]:
+      m.add(*args(b))
+    ctx.count('stats_accumulator_checks')
+    compare(m.result(), want_all, 'add_result')
+    if len(batches) > 1:
+      parts = []
+      for b in batches:
+        part = make()
+        part.add(*args(b))
+        parts.append(part)
+      for other in parts[1:]:
+        parts[0].merge(other)
+      compare(parts[0].result(), want_all, 'merge[one accumulator per batch]')
+  except Exception as e:  # pylint: disable=broad-exception-caught
+    mis.add('raised', None, {'error': repr(e)[:300]})
+  if not mis.flush(ctx, case) and len(ctx.samples) < 5:
+    ctx.sample({'family': 'stats', 'sub': 'valueacc', 'config': config,
+                'input': case['input']})
